@@ -320,7 +320,11 @@ def shard(ctx: Ctx) -> None:
     k = 0
     n_sys = 0
     for scn0 in fixed:
-        base = run(dict(scn0, schedule=[]))
+        try:
+            base = run(dict(scn0, schedule=[]))
+        except Failure as f:
+            ctx.fail(f)
+            continue
         nsteps = base["steps"] if not base.get("inconclusive") else 0
         for pos in range(nsteps + 1):
             for choice in (1, 2):
